@@ -16,3 +16,56 @@ func Harness_parse_long_line() {
 		verifAssert("success-means-all-records", len(rec.nodes) == 3)
 	}
 }
+
+// Harness_parse_long_ok: lines just below, at and above the sizes at which buffered readers
+// hand out their data in pieces (4096, 8192, 65536-1 bytes in total) are one line each: a long
+// comment, a long note, a long entry name and a long heading parse to exactly the expected
+// records (concrete supplement: the symbolic line-step runs bound lines to a few bytes).
+func Harness_parse_long_ok() {
+	sizes := []int{4094, 4095, 4096, 4097, 8192, 8193, 65000}
+	n := sizes[verifChoose("size", len(sizes))]
+	kind := verifChoose("kind", 4)
+	verifLabel("long-line", []string{"comment", "note", "entry-name", "heading"}[kind])
+	fill := strings.Repeat("lorem ipsum 12 ", n/15+1)[:n]
+	name := strings.Repeat("n", n)
+	src := "d1:\n  a: 1\n"
+	switch kind {
+	case 0:
+		src += "#" + fill + "\n  b: 2\n"
+	case 1:
+		src += "  # " + fill + "\n  b: 2\n"
+	case 2:
+		src += "  " + name + ": 2\n"
+	case 3:
+		src += name + ":\n  b: 2\n"
+	}
+	src += "d3:\n  c: 3\n"
+	rec := &hRec{}
+	err := ParseStreamCallback(strings.NewReader(src), NewDefaultConfig(), rec.cb)
+	verifCover("long")
+	verifAssert("no-error-reported", err == nil && len(rec.errs) == 0)
+	want := 2
+	if kind == 3 {
+		want = 3
+	}
+	verifAssert("record-count", len(rec.nodes) == want)
+	if len(rec.nodes) != want {
+		return
+	}
+	last := rec.nodes[want-1]
+	verifAssert("record-header", rec.nodes[0].Header == "d1" && last.Header == "d3")
+	verifAssert("entry-last-record", len(last.Elements) == 1 && last.Elements[0].Name == "c" && last.Elements[0].Value == 3)
+	first := rec.nodes[0]
+	switch kind {
+	case 0, 1:
+		verifAssert("entry-count", len(first.Elements) == 2 && first.Elements[1].Name == "b" && first.Elements[1].Value == 2)
+	case 2:
+		verifAssert("entry-name", len(first.Elements) == 2 && first.Elements[1].Name == name && first.Elements[1].Value == 2)
+	case 3:
+		verifAssert("entry-count", len(first.Elements) == 1)
+		verifAssert("record-header", rec.nodes[1].Header == name && len(rec.nodes[1].Elements) == 1)
+	}
+	if kind == 1 {
+		verifAssert("note-kept", first.Metadata != nil && len(*first.Metadata) == 1)
+	}
+}
